@@ -4,7 +4,7 @@
 #  demo FAILS with the change, PASSES without it, build ok, whole pinned suite passes with the change.
 set -u
 ID=$1; PKG=$2; RX=$3
-W=/tmp/seed-$ID; O=/tmp/seed-$ID-out
+P=${SEEDPREFIX:-seed}; W=/tmp/$P-$ID; O=/tmp/$P-$ID-out
 export GOFLAGS=-mod=mod GOPROXY=off
 cd $W || exit 2
 DEMO=$(ls $O/*_test.go | head -1)
